@@ -58,7 +58,11 @@ def apply_edit(db, e):
             # "no alias" is written None or '' (the constructor treats both alike): alternately
             t.alias = dec(e['v']) or (None if len(db.tables) % 2 else '')
         elif op == 'table_note':
-            t.note = Note(dec(e['v']))
+            # alternately a new Note object and the text of the note the element already has, edited in place
+            if len(db.refs) % 2:
+                t.note = Note(dec(e['v']))
+            else:
+                t.note.text = dec(e['v'])
     elif op.startswith('col_'):
         c = db.tables[e['t'] - 1].columns[e['c'] - 1]
         if op == 'col_name':
@@ -71,7 +75,10 @@ def apply_edit(db, e):
         elif op == 'col_default':
             c.default = builder._default(e['df'])
         elif op == 'col_note':
-            c.note = Note(dec(e['v']))
+            if len(db.refs) % 2:
+                c.note = Note(dec(e['v']))
+            else:
+                c.note.text = dec(e['v'])
     elif op == 'enum_name':
         db.enums[e['e'] - 1].name = dec(e['v'])
     elif op.startswith('ref_'):
